@@ -3,6 +3,7 @@ package props
 import (
 	"fmt"
 	"sort"
+	"strings"
 
 	"github.com/acarl005/stripansi"
 	"github.com/mattn/go-runewidth"
@@ -56,8 +57,17 @@ func runC12(ci interface{}) Result {
 		return r
 	}
 	if tr.Hang != nil {
-		vstat.Class("hang-left-to-C01", 1)
 		dumpHang(sc, tr)
+		// a deadlock inside the width exchange (a synchronised decorator waiting for
+		// its column's width, or a column's distributor waiting for a bar) is this
+		// property's: a bar joining or leaving has disturbed the others for good
+		where := fmt.Sprint(tr.Hang.Where)
+		if tr.Hang.Kind == "deadlock" && (strings.Contains(where, "WC.Format") || strings.Contains(where, "WC).Format") || strings.Contains(where, "maxWidthDistributor")) {
+			r.Err = fmt.Errorf("deadlock at %s inside the width exchange of synchronised decorators: no further frame is drawn; goroutines %v", tr.Hang.AtStep, tr.Hang.Where)
+			r.Kind = "sync-deadlock"
+			return r
+		}
+		vstat.Class("hang-left-to-C01", 1)
 		return r
 	}
 	r.Classes = append(append(r.Classes, "refresh:"+sc.Cfg.Refresh), featureClasses(sc)...)
